@@ -218,6 +218,7 @@ func execTagtool(s *Sexp) string {
 	}
 	before, _ := tagTable([]byte(src))
 	lastTagtoolOracle = append(lastTagtoolOracle, tagtoolRules(flags, before, tbl)...)
+	lastTagtoolOracle = append(lastTagtoolOracle, tagtoolEligibility(flags, s, tbl)...)
 	return "ok " + tbl
 }
 
@@ -368,4 +369,80 @@ func runC20(r *Runner, g *Gen, tier string) string {
 		r.Do(L(items...), true, "tagtool")
 	}
 	return "generated Go files with 1-3 structs of 0-5 fields: exported / unexported / underscore names, multi-name declarations, embedded fields (value, pointer, unexported type), existing / partial / malformed / blank / no tags incl. json:\"-\" and sql:\"-\", all flag combinations; op = run the real plenctag binary built from /repo (-w=false), parse its output with go/parser and print the per-field tag table; compared with the model's table; oracle: exit status instead of a crash, only tags differ, existing plenc tags and other keys kept, new indexes greater than every existing one and pairwise distinct, output gofmt-stable, second run changes nothing"
+}
+
+// tagtoolEligibility: which fields must gain a tag, and which one (from the op's
+// own description of the input): a field without a plenc tag that is not left
+// alone (unexported name or embedded type with the -private option) gains "-"
+// when an enabled option names a key whose value is exactly "-", and an index
+// when no enabled option's key is present with a "-" name at all ("-," forms are
+// left to the model comparison).
+func tagtoolEligibility(flags [3]bool, op *Sexp, after string) []string {
+	a, _ := parseSexp("(" + after + ")")
+	if a == nil {
+		return nil
+	}
+	var fails []string
+	structs := op.List[4:]
+	if len(structs) != len(a.List) {
+		return nil
+	}
+	keyVal := func(tag, key string) (string, bool) {
+		i := strings.Index(tag, key+`:"`)
+		if i < 0 || (i > 0 && tag[i-1] != ' ') {
+			return "", false
+		}
+		rest := tag[i+len(key)+2:]
+		j := strings.IndexByte(rest, '"')
+		if j < 0 {
+			return "", false
+		}
+		return rest[:j], true
+	}
+	for si, st := range structs {
+		af := a.List[si].List[1:]
+		fds := st.List[1:]
+		if len(af) != len(fds) {
+			continue
+		}
+		for i, fd := range fds {
+			names := fd.List[1].List[1:]
+			emb, _ := unhx(fd.List[2].Atom)
+			tag := tagText(fd.List[3].Atom)
+			if len(names) > 1 || strings.Contains(tag, "plenc:") {
+				continue
+			}
+			name := strings.TrimLeft(string(emb), "*")
+			if len(names) == 1 {
+				b, _ := unhx(names[0].Atom)
+				name = string(b)
+			}
+			if name == "" {
+				continue
+			}
+			first := []rune(name)[0]
+			lower := first >= 'a' && first <= 'z'
+			at := tagText(af[i].List[2].Atom)
+			got, has := keyVal(at, "plenc")
+			if flags[2] && lower {
+				if has {
+					fails = append(fails, "unexported field "+name+" was tagged although -private is set")
+				}
+				continue
+			}
+			sqlV, hasSQL := keyVal(tag, "sql")
+			jsonV, hasJSON := keyVal(tag, "json")
+			mustDash := (flags[1] && hasSQL && sqlV == "-") || (flags[0] && hasJSON && jsonV == "-")
+			mayDash := (flags[1] && hasSQL && strings.HasPrefix(sqlV, "-")) || (flags[0] && hasJSON && strings.HasPrefix(jsonV, "-"))
+			switch {
+			case !has:
+				fails = append(fails, "eligible field "+name+" gained no plenc tag")
+			case mustDash && got != "-":
+				fails = append(fails, fmt.Sprintf("field %s is excluded by its tags (%s) but got plenc:%q", name, tag, got))
+			case !mayDash && got == "-":
+				fails = append(fails, fmt.Sprintf("field %s is not excluded by its tags (%s) under these options but got plenc:\"-\"", name, tag))
+			}
+		}
+	}
+	return fails
 }
